@@ -40,14 +40,15 @@ Qed.
 
 (* ---- what is observed of an end tag, in terms of the input ----------------------------------------------------------- *)
 (* the token [s, s+n) of input d is an end tag: with nr = the length of its name (the bytes after "</" up to the
-   first whitespace, '>' or '/'), its bytes are the input bytes with exactly the name lower-cased; Text() starts after
+   first whitespace, '>' or '/', or up to the start of a template delimiter if one comes first: nr is at most the
+   length up to whitespace, '>' or '/'), its bytes are the input bytes with exactly the name lower-cased; Text() starts after
    "</", does not end in whitespace, and is followed by whitespace and '>' only. *)
 Definition endtag_faithful (d : list Z) (r : Z * option sl * lexer) : Prop :=
   let '(ty, tk, l') := r in
   ty = EndTagT ->
-  exists v t, tk = Some v /\ ltext l' = Some t /\
+  exists v t nr, tk = Some v /\ ltext l' = Some t /\
     let s := so v in let n := sn v in
-    let nr := name_run (slice d (s + 2) (s + n)) in
+    nr <= name_run [] (slice d (s + 2) (s + n)) /\
     2 <= n /\ 0 <= nr /\ s + 2 + nr <= s + n /\
     view_bytes (lbuf (lz l')) v =
       slice d s (s + 2) ++ map lower (slice d (s + 2) (s + 2 + nr)) ++ slice d (s + 2 + nr) (s + n) /\
@@ -79,7 +80,7 @@ Proof.
   rewrite Hlen in *.
   unfold low_rule in Wr. change ((EndTagT =? StartTagT) || (EndTagT =? SvgT) || (EndTagT =? MathT) || (EndTagT =? XmlT)) with false in Wr.
   change (EndTagT =? EndTagT) with true in Wr. cbn iota in Wr.
-  destruct tk as [v|]; [|contradiction]. destruct Wr as [Hwv (t & k & T1 & T2 & T3 & T4 & T5 & T6)].
+  destruct tk as [v|]; [|contradiction]. destruct Wr as [[tbx Hwv] (t & k & T1 & T2 & T3 & T4 & T5 & T6)].
   destruct Htk as (_ & V1 & V2 & V3 & _).
   set (B := lbuf (lz l)) in *. set (s := so v) in *. set (n := sn v) in *.
   (* the buffer agrees with the input on the token *)
@@ -87,15 +88,15 @@ Proof.
   { intros i Hi'. unfold B. rewrite Hsuf by lia. apply peekz_app_l. lia. }
   assert (Hsl : forall a b, s <= a -> a <= b -> b <= s + n -> slice B a b = slice d a b).
   { intros a b Ha Hab Hbn. apply slice_ext; [lia|lia|lia|]. intros i Hi'. apply Hpk. lia. }
-  assert (Hw2 : so w = s + 2 /\ sn w = name_run (slice d (s + 2) (s + n))).
+  assert (Hw2 : so w = s + 2 /\ sn w = name_run tbx (slice d (s + 2) (s + n))).
   { rewrite Hwv. unfold endtag_name_view. cbn [so sn]. split; [reflexivity|]. f_equal. unfold view_bytes. fold s n.
     assert (2 <= n).
     { rewrite Hwv in W3. unfold endtag_name_view in W3. cbn [so sn] in W3. rewrite Hwv in W2. cbn [endtag_name_view sn] in W2. lia. }
     rewrite skipz_slice by lia. apply Hsl; lia. }
-  destruct Hw2 as [Hw2a Hw2b]. set (nr := name_run (slice d (s + 2) (s + n))) in *.
-  exists v, t. split; [reflexivity|]. split; [exact T1|]. cbn zeta. fold s n nr.
+  destruct Hw2 as [Hw2a Hw2b]. set (nr := name_run tbx (slice d (s + 2) (s + n))) in *.
+  exists v, t, nr. split; [reflexivity|]. split; [exact T1|]. cbn zeta. fold s n.
   assert (Hn2 : 2 <= n) by lia.
-  split; [exact Hn2|]. split; [lia|]. split; [lia|]. split.
+  split; [apply name_run_le|]. split; [exact Hn2|]. split; [lia|]. split; [lia|]. split.
   - rewrite Hb. destruct w as [wo wn]. cbn [so sn] in *. subst wo wn.
     replace (mkSl (s + 2) nr) with (mkSl (s + 2) (2 + nr - 2)) by (f_equal; lia).
     replace v with (mkSl s n) by (destruct v; reflexivity).
